@@ -1,3 +1,292 @@
-import Rtcp.Lemmas.Safe6
+/-
+  C03 — Marshal emits exactly the RFC wire layout of each packet type.
+  `Spec.*` (Spec/Wire.lean) are the layouts transcribed from the RFCs as MSB-first bit-field lists, independent of the
+  Go code's offsets/shifts/masks; `render` packs them. The theorems: for every well-formed value, Marshal = render(spec).
+  Proved for SR, RR, SDES, BYE, APP, NACK, RRR, PLI, FIR (version 2, registered PT and count/FMT, every field at its
+  offset/width/byte order, padding and reserved bits zero). XR: the struct layouts equal RFC 3611's tables
+  (C15.layouts_rfc) and blocks carry type/length as specified (C15.block_header).
+  Known findings: SLI is emitted with PT 205 (RFC 4585: 206) — `KF_sli_packet_type`; CCFB num_reports = n−1.
+  REMB, TWCC, CCFB: by the encspec correspondence against the model encoder only.
+-/
+import Rtcp.Lemmas.SpecBits
+import Rtcp.Lemmas.Frame
 namespace Rtcp.C03
+open Rtcp Gen Out Spec
+set_option linter.unusedSimpArgs false
+set_option linter.unusedVariables false
+
+theorem render_cons (e : El) (es : List El) : render (e :: es) = e.render ++ render es := by simp [render]
+theorem render_append (a b : List El) : render (a ++ b) = render a ++ render b := by simp [render]
+theorem render_nil : render [] = [] := rfl
+
+theorem pad4_eq (n : Nat) : pad4 n = getPadding n := by unfold pad4 getPadding; split <;> omega
+
+theorem u32_pow {x : Nat} (h : x < 4294967296) : x < 2 ^ 32 := by simpa using h
+theorem u16_pow {x : Nat} (h : x < 65536) : x < 2 ^ 16 := by simpa using h
+theorem u8_pow {x : Nat} (h : x < 256) : x < 2 ^ 8 := by simpa using h
+theorem u24_pow {x : Nat} (h : x < 16777216) : x < 2 ^ 24 := by simpa using h
+theorem u64_pow {x : Nat} (h : x < 18446744073709551616) : x < 2 ^ 64 := by simpa using h
+
+/-- feedback header + two SSRCs -/
+theorem fb_render (fmt pt words s m : Nat) (hf : fmt < 32) (hp : pt < 256) (hw : words < 65536) (hs : s < 4294967296) (hm : m < 4294967296) :
+    render (fb fmt pt words s m) = (Header.mk false fmt pt words).bytes ++ (be32 s ++ be32 m) := by
+  simp only [fb, render_cons, render_nil, List.append_nil]
+  rw [header_render false fmt pt words hf hp hw]
+  rw [bits_aligned _ (by intro f hf'; simp at hf'; rcases hf' with h | h <;> subst h <;> exact ⟨by simp, by first | exact u32_pow hs | exact u32_pow hm⟩)]
+  simp [renderAligned, beBytes4]
+
+theorem pli_wire (v : PictureLossIndication) (h : v.WF) : v.enc = .ok (render (Spec.pli v)) := by
+  obtain ⟨h1, h2⟩ := h
+  simp only [u32] at h1 h2
+  rw [Spec.pli, fb_render 1 206 2 _ _ (by decide) (by decide) (by decide) h1 h2]
+  unfold PictureLossIndication.enc
+  rw [Header.enc_ok _ (by first | decide | simp [PictureLossIndication.header, RapidResync.header])]
+  rfl
+
+theorem rrr_wire (v : RapidResync) (h : v.WF) : v.enc = .ok (render (Spec.rrr v)) := by
+  obtain ⟨h1, h2⟩ := h
+  simp only [u32] at h1 h2
+  rw [Spec.rrr, fb_render 5 205 2 _ _ (by decide) (by decide) (by decide) h1 h2]
+  unfold RapidResync.enc
+  rw [Header.enc_ok _ (by first | decide | simp [PictureLossIndication.header, RapidResync.header])]
+  rfl
+
+theorem nacks_render (ns : List NackPair) (h : ∀ n ∈ ns, n.WF) :
+    render (ns.map fun n => El.bits [(16, n.packetID), (16, n.lost)]) = encNacks ns := by
+  induction ns with
+  | nil => rfl
+  | cons n ns ih =>
+    have hn := h n (by simp)
+    simp only [NackPair.WF, u16] at hn
+    simp only [List.map_cons, render_cons, ih (fun x hx => h x (by simp [hx]))]
+    rw [bits_aligned _ (by intro f hf'; simp at hf'; rcases hf' with h | h <;> subst h <;> exact ⟨by simp, by first | exact u16_pow hn.1 | exact u16_pow hn.2⟩)]
+    simp [renderAligned, beBytes2, encNacks]
+
+theorem nack_wire (v : TransportLayerNack) (h : v.WF) : v.enc = .ok (render (Spec.nack v)) := by
+  obtain ⟨h1, h2, h3, h4, h5⟩ := h
+  simp only [u32] at h1 h2
+  rw [Spec.nack, render_append, fb_render 1 205 _ _ _ (by decide) (by decide) (by omega) h1 h2, nacks_render _ h5]
+  unfold TransportLayerNack.enc
+  rw [if_neg (by simp; omega), Header.enc_ok _ (by first | decide | simp [TransportLayerNack.header, FullIntraRequest.header]), bind_ok]
+  have hh : v.header = Header.mk false 1 205 (2 + v.nacks.length) := by
+    simp [TransportLayerNack.header, TransportLayerNack.marshalSize]; omega
+  rw [hh]
+  simp
+
+theorem firs_render (es : List FIREntry) (h : ∀ e ∈ es, e.WF) :
+    render (es.map fun e => El.bits [(32, e.ssrc), (8, e.seq), (24, 0)]) = encFIRs es := by
+  induction es with
+  | nil => rfl
+  | cons e es ih =>
+    have he := h e (by simp)
+    simp only [FIREntry.WF, u32, u8] at he
+    simp only [List.map_cons, render_cons, ih (fun x hx => h x (by simp [hx]))]
+    rw [bits_aligned _ (by
+      intro f hf'; simp at hf'
+      rcases hf' with h | h | h <;> subst h
+      · exact ⟨by simp, u32_pow he.1⟩
+      · exact ⟨by simp, u8_pow he.2⟩
+      · exact ⟨by simp, by simp⟩)]
+    simp [renderAligned, beBytes4, beBytes1, beBytes3, be24, encFIRs, byte]
+
+theorem fir_wire (v : FullIntraRequest) (h : v.WF) : v.enc = .ok (render (Spec.fir v)) := by
+  obtain ⟨h1, h2, h3, h4, h5⟩ := h
+  simp only [u32] at h1 h2
+  rw [Spec.fir, render_append, fb_render 4 206 _ _ _ (by decide) (by decide) (by omega) h1 h2, firs_render _ h5]
+  unfold FullIntraRequest.enc
+  rw [Header.enc_ok _ (by first | decide | simp [TransportLayerNack.header, FullIntraRequest.header]), bind_ok]
+  have hh : v.header = Header.mk false 4 206 (2 + 2 * v.fir.length) := by
+    simp [FullIntraRequest.header, FullIntraRequest.marshalSize]; omega
+  rw [hh]
+  simp
+
+/-- the library's SLI packet type is 205 where RFC 4585 §6.3 registers SLI as payload-specific feedback (206) -/
+theorem KF_sli_packet_type (v : SliceLossIndication) : v.header.type = 205 ∧ (Spec.sli v).head? = some (Spec.header false 2 206 (2 + v.sli.length)) :=
+  ⟨rfl, rfl⟩
+
+theorem reports_render (rs : List ReceptionReport) (h : ∀ r ∈ rs, r.WF) :
+    render (rs.map reportBlock) = reportsBytes rs := by
+  induction rs with
+  | nil => rfl
+  | cons r rs ih =>
+    obtain ⟨a1, a2, a3, a4, a5, a6, a7⟩ := h r (by simp)
+    simp only [u32, u8] at a1 a2 a3 a4 a5 a6 a7
+    simp only [List.map_cons, render_cons, ih (fun x hx => h x (by simp [hx])), reportBlock]
+    rw [bits_aligned _ (by
+      intro f hf'; simp at hf'
+      rcases hf' with h | h | h | h | h | h | h <;> subst h
+      · exact ⟨by simp, u32_pow a1⟩
+      · exact ⟨by simp, u8_pow a2⟩
+      · exact ⟨by simp, u24_pow a3⟩
+      · exact ⟨by simp, u32_pow a4⟩
+      · exact ⟨by simp, u32_pow a5⟩
+      · exact ⟨by simp, u32_pow a6⟩
+      · exact ⟨by simp, u32_pow a7⟩)]
+    simp [renderAligned, beBytes4, beBytes1, beBytes3, reportsBytes, ReceptionReport.bytes]
+
+theorem sr_wire (v : SenderReport) (h : v.WF) : v.enc = .ok (render (Spec.sr v)) := by
+  rw [SenderReport.enc_ok v h]
+  obtain ⟨h1, h2, h3, h4, h5, h6, h7, h8, h9⟩ := h
+  simp only [u32, u64] at h1 h2 h3 h4 h5
+  have hpad : getPadding v.ext.length = 0 := getPadding_eq_zero h8
+  have hsz : v.marshalSize = 28 + 24 * v.reports.length + v.ext.length := by simp [SenderReport.marshalSize, hpad]; omega
+  simp only [Spec.sr, render_append, render_cons, render_nil, List.append_nil, reports_render _ h7]
+  rw [header_render false _ 200 _ (by omega) (by decide) (by omega)]
+  rw [bits_aligned _ (by
+    intro f hf'; simp at hf'
+    rcases hf' with h | h | h | h | h <;> subst h
+    · exact ⟨by simp, u32_pow h1⟩
+    · exact ⟨by simp, u64_pow h2⟩
+    · exact ⟨by simp, u32_pow h3⟩
+    · exact ⟨by simp, u32_pow h4⟩
+    · exact ⟨by simp, u32_pow h5⟩)]
+  have hh : v.header = Header.mk false v.reports.length 200 ((28 + 24 * v.reports.length + v.ext.length) / 4 - 1) := by
+    simp [SenderReport.header, hsz]; omega
+  rw [hh, hpad]
+  simp [renderAligned, beBytes4, beBytes8, El.render, zeros]
+
+theorem rr_wire (v : ReceiverReport) (h : v.WF) : v.enc = .ok (render (Spec.rr v)) := by
+  rw [ReceiverReport.enc_ok v h]
+  obtain ⟨h1, h2, h3, h4⟩ := h
+  simp only [u32] at h1
+  have hp := getPadding_lt v.ext.length
+  have hm := add_getPadding_mod v.ext.length
+  have hsz : v.marshalSize = 8 + 24 * v.reports.length + v.ext.length + getPadding v.ext.length := by simp [ReceiverReport.marshalSize]; omega
+  simp only [Spec.rr, render_append, render_cons, render_nil, List.append_nil, reports_render _ h3, pad4_eq]
+  rw [header_render false _ 201 _ (by omega) (by decide) (by omega)]
+  rw [bits_aligned _ (by intro f hf'; simp at hf'; subst hf'; exact ⟨by simp, u32_pow h1⟩)]
+  have hh : v.header = Header.mk false v.reports.length 201 ((8 + 24 * v.reports.length + v.ext.length + getPadding v.ext.length) / 4 - 1) := by
+    simp [ReceiverReport.header, hsz]; omega
+  rw [hh]
+  simp [renderAligned, beBytes4, El.render, zeros]
+
+theorem app_wire (v : ApplicationDefined) (h : v.WF) : v.enc = .ok (render (Spec.app v)) := by
+  obtain ⟨h1, h2, h3, h4, h5⟩ := h
+  simp only [u32] at h2
+  have hpad : appPadding v.data.length = 0 := by simp [appPadding]; omega
+  have hsz : v.marshalSize = 12 + v.data.length := by simp [ApplicationDefined.marshalSize, hpad]
+  unfold ApplicationDefined.enc
+  rw [if_neg (by omega), if_neg (by omega)]
+  simp only [hpad, hsz]
+  rw [Header.enc_ok _ (by simpa using h1), bind_ok]
+  simp only [Spec.app, render_cons, render_nil, List.append_nil]
+  rw [header_render false _ 204 _ (by omega) (by decide) (by omega)]
+  rw [bits_aligned _ (by intro f hf'; simp at hf'; subst hf'; exact ⟨by simp, u32_pow h2⟩)]
+  have hl : ((12 + v.data.length) / 4 - 1) % 65536 = (12 + v.data.length) / 4 - 1 := by omega
+  simp [renderAligned, beBytes4, El.render, hl]
+
+theorem items_render (is : List SDESItem) (h : ∀ i ∈ is, i.WF) : render (is.flatMap sdesItem) = itemsBytes is := by
+  induction is with
+  | nil => rfl
+  | cons i is ih =>
+    obtain ⟨a1, a2, a3⟩ := h i (by simp)
+    simp only [u8] at a2
+    simp only [List.flatMap_cons, render_append, ih (fun x hx => h x (by simp [hx])), sdesItem, render_cons, render_nil, List.append_nil]
+    rw [bits_aligned _ (by
+      intro f hf'; simp at hf'
+      rcases hf' with h | h <;> subst h
+      · exact ⟨by simp, u8_pow a2⟩
+      · exact ⟨by simp, u8_pow (by omega)⟩)]
+    simp [renderAligned, beBytes1, El.render, itemsBytes, SDESItem.bytes]
+
+theorem sdesChunkLen_eq (c : SDESChunk) : sdesChunkLen c = 4 + itemsLen c.items + 1 := by
+  have key : ∀ is : List SDESItem, (is.map fun i => 2 + i.text.length).sum = itemsLen is := by
+    intro is
+    induction is with
+    | nil => rfl
+    | cons i is ih => simp [itemsLen, SDESItem.len] at ih ⊢; omega
+  simp only [sdesChunkLen, key]
+
+theorem chunks_render (cs : List SDESChunk) (h : ∀ c ∈ cs, c.WF) : render (cs.flatMap sdesChunk) = chunksBytes cs := by
+  induction cs with
+  | nil => rfl
+  | cons c cs ih =>
+    obtain ⟨a1, a2⟩ := h c (by simp)
+    simp only [u32] at a1
+    simp only [List.flatMap_cons, render_append, ih (fun x hx => h x (by simp [hx])), sdesChunk, render_cons, render_nil, List.append_nil,
+      items_render _ a2, pad4_eq, sdesChunkLen_eq]
+    rw [bits_aligned _ (by intro f hf'; simp at hf'; subst hf'; exact ⟨by simp, u32_pow a1⟩)]
+    simp [renderAligned, beBytes4, El.render, chunksBytes, SDESChunk.bytes, zeros]
+
+theorem sdes_sizes (cs : List SDESChunk) : (cs.map fun c => sdesChunkLen c + pad4 (sdesChunkLen c)).sum = chunksLen cs := by
+  simp only [chunksLen]
+  congr 1
+  apply List.map_congr_left
+  intro c _
+  rw [pad4_eq, sdesChunkLen_eq]
+  simp [SDESChunk.len]
+
+theorem sdes_wire (v : SourceDescription) (h : v.WF) : v.enc = .ok (render (Spec.sdes v)) := by
+  obtain ⟨h1, h2, h3⟩ := h
+  have hsz : v.marshalSize = 4 + chunksLen v.chunks := by simp [SourceDescription.marshalSize]
+  unfold SourceDescription.enc
+  rw [encChunks_ok _ h2, bind_ok, if_neg (by simp; omega), Header.enc_ok _ (by simp [SourceDescription.header]; omega), bind_ok]
+  simp only [Spec.sdes, render_append, render_cons, render_nil, List.append_nil, chunks_render _ h2, sdes_sizes]
+  rw [header_render false _ 202 _ (by omega) (by decide) (by omega)]
+  have hh : v.header = Header.mk false v.chunks.length 202 ((4 + chunksLen v.chunks) / 4 - 1) := by
+    simp [SourceDescription.header, hsz]; omega
+  rw [hh]; rfl
+
+theorem srcs_render (l : List Nat) (h : ∀ s ∈ l, s < 4294967296) : render (l.map fun s => El.bits [(32, s)]) = encSSRCs l := by
+  induction l with
+  | nil => rfl
+  | cons x xs ih =>
+    simp only [List.map_cons, render_cons, ih (fun s hs => h s (by simp [hs]))]
+    rw [bits_aligned _ (by intro f hf'; simp at hf'; subst hf'; exact ⟨by simp, u32_pow (h x (by simp))⟩)]
+    simp [renderAligned, beBytes4, encSSRCs]
+
+theorem bye_wire (v : Goodbye) (h : v.WF) : v.enc = .ok (render (Spec.bye v)) := by
+  obtain ⟨srcs, reason⟩ := v
+  obtain ⟨h1, h2, h3⟩ := h
+  simp only [u32] at h1 h2 h3
+  by_cases hr : 0 < reason.length
+  · have hsz := Goodbye.size_reason srcs reason hr
+    have hp := getPadding_lt (4 + srcs.length * 4 + (reason.length + 1))
+    have hbody : 4 * srcs.length + (1 + reason.length) = srcs.length * 4 + (reason.length + 1) := by omega
+    have hpadeq : getPadding (4 * srcs.length + (1 + reason.length)) = getPadding (4 + srcs.length * 4 + (reason.length + 1)) := by
+      unfold getPadding; split <;> split <;> omega
+    generalize hpd : getPadding (4 + srcs.length * 4 + (reason.length + 1)) = pad at hsz hp hpadeq
+    unfold Goodbye.enc
+    rw [if_neg (by simp; omega), if_neg (by simp; omega), Header.enc_ok _ (by simp [Goodbye.header]; omega), bind_ok]
+    simp only [hr, if_true, pure_eq, hsz, List.length_append, encSSRCs_length, List.length_cons, List.length_nil]
+    have hz : 4 + srcs.length * 4 + (reason.length + 1) + pad - headerLength - (srcs.length * 4 + (0 + 1 + reason.length)) = pad := by
+      simp only [headerLength]; omega
+    rw [hz]
+    simp only [Spec.bye, hr, if_true, render_append, render_cons, render_nil, List.append_nil, srcs_render _ h2, pad4_eq, hpadeq]
+    rw [header_render false _ 203 _ (by omega) (by decide) (by omega)]
+    rw [bits_aligned _ (by intro f hf'; simp at hf'; subst hf'; exact ⟨by simp, u8_pow (by omega)⟩)]
+    have hh : (Goodbye.mk srcs reason).header = Header.mk false srcs.length 203 ((4 + (4 * srcs.length + (1 + reason.length)) + pad) / 4 - 1) := by
+      simp [Goodbye.header, hsz]; omega
+    rw [hh]
+    simp [renderAligned, beBytes1, El.render, zeros]
+  · have hr0 : reason = [] := List.eq_nil_of_length_eq_zero (by omega)
+    subst hr0
+    have hsz := Goodbye.size_noreason srcs
+    unfold Goodbye.enc
+    rw [if_neg (by simp; omega), if_neg (by simp), Header.enc_ok _ (by simp [Goodbye.header]; omega), bind_ok]
+    simp only [List.length_nil, Nat.lt_irrefl, if_false, pure_eq, List.append_nil, hsz, encSSRCs_length]
+    have hz : 4 + srcs.length * 4 - headerLength - srcs.length * 4 = 0 := by simp only [headerLength]; omega
+    rw [hz]
+    have hp0 : getPadding (4 * srcs.length + 0) = 0 := getPadding_eq_zero (by omega)
+    simp only [Spec.bye, List.length_nil, Nat.lt_irrefl, if_false, render_append, render_cons, render_nil, List.append_nil,
+      srcs_render _ h2, pad4_eq, hp0]
+    rw [header_render false _ 203 _ (by omega) (by decide) (by omega)]
+    have hh : (Goodbye.mk srcs []).header = Header.mk false srcs.length 203 ((4 + (4 * srcs.length + 0) + 0) / 4 - 1) := by
+      simp [Goodbye.header, hsz]; omega
+    rw [hh]
+    simp [El.render, zeros]
+
+/-- version 2, registered packet type and count: the first two octets of every proved type -/
+theorem first_octets (p : Bool) (c t l : Nat) (hc : c < 32) (ht : t < 256) (hl : l < 65536) :
+    get8 ((Spec.header p c t l).render) 0 / 64 = 2 ∧ get8 ((Spec.header p c t l).render) 0 % 32 = c ∧
+    get8 ((Spec.header p c t l).render) 1 = t := by
+  rw [header_render p c t l hc ht hl]
+  have h0 := get8_hdr0 ⟨p, c, t, l⟩ []
+  have h1 := get8_hdr1 ⟨p, c, t, l⟩ []
+  simp only [List.append_nil] at h0 h1
+  rw [h0, h1]
+  cases p <;> simp <;> omega
+
+example : render (Spec.pli ⟨1, 2⟩) = [0x81, 206, 0, 2, 0, 0, 0, 1, 0, 0, 0, 2] := by decide
+
 end Rtcp.C03
